@@ -403,6 +403,18 @@ func (ts *TermStore) Eq(a, b *Term) *Term {
 	return ts.mk(&Term{Op: OpEq, W: 0, Args: []*Term{a, b}})
 }
 
+// EqRaw builds an equality without the injective-UF rewrite (used for the
+// injectivity axioms themselves).
+func (ts *TermStore) EqRaw(a, b *Term) *Term {
+	if a == b {
+		return ts.True
+	}
+	if a.ID > b.ID {
+		a, b = b, a
+	}
+	return ts.mk(&Term{Op: OpEq, W: 0, Args: []*Term{a, b}})
+}
+
 func (ts *TermStore) Ite(c, a, b *Term) *Term {
 	if c.W != 0 {
 		panic("Ite cond not bool")
@@ -927,20 +939,6 @@ func (ts *TermStore) Extract(a *Term, hi, lo int) *Term {
 	case OpSExt:
 		if hi < a.Args[0].W {
 			return ts.Extract(a.Args[0], hi, lo)
-		}
-	case OpBvAdd, OpBvSub, OpBvMul:
-		// low bits of add/sub/mul depend only on low bits of operands
-		if lo == 0 {
-			x := ts.Extract(a.Args[0], hi, 0)
-			y := ts.Extract(a.Args[1], hi, 0)
-			switch a.Op {
-			case OpBvAdd:
-				return ts.Add(x, y)
-			case OpBvSub:
-				return ts.Sub(x, y)
-			case OpBvMul:
-				return ts.Mul(x, y)
-			}
 		}
 	}
 	return ts.mk(&Term{Op: OpExtract, W: w, Args: []*Term{a}, Hi: hi, Lo: lo})
